@@ -57,6 +57,11 @@ def run(ctx):
     ctx.alias = {}
     shared.check_token_ctors_verbatim(ctx, 'R10')
     shared.check_cells_unmodified(ctx, 'R10')
+    # "barlines ... detected identically under every spine type": a row opens a measure whatever the type of the spine (C07.R3 as R11)
+    from . import c07
+    ctx.alias = {'R3': 'R11'}
+    c07.r3_index(ctx)
+    ctx.alias = {}
     from .. import regen
     regen.check(ctx, 'R6')
     # the accepted-category tests rest on is_child / valid / nodes: nodes(c) is computed afresh from the hierarchy (a set that is
